@@ -16,7 +16,7 @@ THEOREMS = ["C17_at_most_once", "C17_pairing", "C17_serials", "C17_serial_sequen
             "C17_cancel_silent_partial", "C17_cancel_silent_refuted", "C17_fault_only_null_link", "C17_no_fault_partial", "C17_no_fault_refuted",
             "C17_close_completes_refuted", "C17_queued_reply_completes_once", "C17_timeout_completes_once", "C17_block_completes_once",
             "C17_elapsed_bounds", "C17_give_up_complete", "C17_give_up_sound_partial", "C17_give_up_exact",
-            "C17_timeout_not_early_refuted_rounding", "C17_clock_backward_branch", "C17_monotonic_never_backward", "C17_no_early_timeout",
+            "C17_timeout_not_early_refuted_rounding", "C17_clock_backward_branch", "C17_monotonic_never_backward", "C17_no_early_timeout", "C17_reply_first",
             "C17_timed_block_is_run", "C17_timed_block_at_most_once", "C17_timeout_lifecycle",
             "C17_no_lost_wakeup", "C17_io_path_exclusive", "C17_handover_completes", "C17_check_before_acquire_refuted"]
 
@@ -477,7 +477,7 @@ def oracle(events, line):
                                 "(and was handed to the filters)" % (f[1], got, c["lost_reply"])))
                 if got[0] in "NX":
                     if c["expect_peer"]:
-                        bad.append(("violation", "call %s (serial %d, timeout %s) was blocked on while its reply arrived on an open connection, "
+                        bad.append(("violation", "call %s (serial %d, timeout %s) was blocked on and its reply arrived (before any close of the connection), "
                                     "yet it completed with the locally generated error %s" % (f[1], c["serial"], c["ms"], got)))
                     if int(got[1:]) != c["serial"]:
                         bad.append(("violation", "call %s (serial %d) completed with the local error for serial %s" % (f[1], c["serial"], got[1:])))
